@@ -37,6 +37,35 @@ def expect_counterexample(v, cfg, invariants):
     log("[tlc] %s: counterexample for %s found as expected (%d states)" % (cfg, r.violated, r.generated))
 
 
+def apalache_alloc(v):
+    """Unbounded IDs: Apalache discharges the inductive invariant of spec/alloc/Alloc.tla (base case, inductive step from an
+    arbitrary state, invariant => safety) and must refute the variant with process death inside a run."""
+    import subprocess
+    import shutil
+    import os
+    d = os.path.join(common.SPEC, "alloc")
+    out_dir = os.path.join(common.SCRATCH_ROOT, "verif-apalache-%d" % os.getpid())
+    steps = [("base", ["--init=Init", "--inv=IndInv", "--length=0", "AllocApa.tla"], "NoError"),
+             ("step", ["--init=IndInit", "--inv=IndInv", "--length=1", "AllocApa.tla"], "NoError"),
+             ("implies-safety", ["--init=IndInit", "--inv=Safety", "--length=0", "AllocApa.tla"], "NoError"),
+             ("kill-variant-refuted", ["--init=IndInit", "--next=NextK", "--inv=IndInv", "--length=1", "AllocKill.tla"], "Error")]
+    res = []
+    for name, args, want in steps:
+        p = subprocess.run(["apalache-mc", "check", "--out-dir=" + out_dir] + args, cwd=d, stdout=subprocess.PIPE,
+                           stderr=subprocess.STDOUT, text=True, timeout=1800)
+        m = [l for l in p.stdout.splitlines() if "The outcome is:" in l]
+        got = m[-1].split("The outcome is:")[1].split()[0] if m else "none"
+        res.append({"obligation": name, "outcome": got})
+        if got != want:
+            shutil.rmtree(out_dir, ignore_errors=True)
+            raise common.ToolError("Apalache obligation %s: expected %s, got %s\n%s" % (name, want, got, p.stdout[-1500:]))
+    shutil.rmtree(out_dir, ignore_errors=True)
+    for junk in ("_apalache-out", "tmp"):
+        shutil.rmtree(os.path.join(d, junk), ignore_errors=True)
+    v.cov["apalache_inductive_invariant"] = res
+    log("[apalache] Alloc.tla: inductive invariant discharged for unbounded IDs (%s)" % ", ".join(r["obligation"] for r in res))
+
+
 def _unq(line, tag):
     body = line[len(tag) + 2:-1].replace('\\"', '"').replace("\\\\", "\\")
     return json.loads(body)
@@ -109,6 +138,8 @@ def c01(tier):
     if tier == "thorough":
         model_step(v, "intended/C01big.cfg")
     expect_counterexample(v, "asfound/C01wrap.cfg", ("InvUniqueInRange",))
+    if tier == "thorough":
+        apalache_alloc(v)
     pre = tlc_dump(r, "INIT")
     log("[dump] %d pre-states from TLC" % len(pre))
     binary = common.build_breadlog()
@@ -175,6 +206,8 @@ def c02(tier):
                need=("DevAdd", "DevDel", "DevDelFile", "DevAddFile", "Signal", "LockWrite", "RenameTmp", "CreateTmp"))
     expect_counterexample(v, "asfound/C02kill.cfg", ("IdleLockDominates", "InvNoReuse"))
     expect_counterexample(v, "asfound/C02lockfault.cfg", ("IdleLockDominates", "InvNoReuse"))
+    if tier == "thorough":
+        apalache_alloc(v)
     binary = common.build_breadlog()
     batch = rl.Batch()
     hists, r = simulate_histories("intended/C02sim.cfg", 400 if tier == "thorough" else 60)
@@ -363,11 +396,59 @@ def follow_readback(h):
 rl.FOLLOW["readback"] = follow_readback
 
 
+def binding_selftest(v, binary):
+    """DESIGN 3.6: the binding must be live.  A recorded trace is corrupted in one field at a time; Observe must report the
+    corresponding property and RunTrace must refuse the run.  A self-test that does not fail is a tool error."""
+    import copy
+    import history
+    sc = rl.Scenario("selftest", {"f1.rs": [S(11), S(12, ref=3)], "f2.rs": [S(21), S(22)]}, lock=None)
+    good = rl.exec_job({"binary": binary, "scen": sc, "steps": [("edit", "")]})["events"]
+    failed = rl.exec_job({"binary": binary, "scen": sc, "steps": [("edit", "op=rename,nth=1:errno=5")]})["events"]
+    results = []
+
+    def observe_reports(evs, prop, check):
+        viols, tr, n = history.judge([evs], v)
+        return any(p == prop and c == check for p, c, l, d in viols)
+
+    def accepted(evs):
+        acc, allr, tr = history.runtrace([evs])
+        return len(acc) == len(allr)
+    if observe_reports(good, "C07", "AtomicFiles") or not accepted(good):
+        raise common.ToolError("binding self-test: the uncorrupted trace is not accepted")
+    # 1. a rename moved before the last write of its temp file
+    t = copy.deepcopy(good)
+    ri = next(i for i, e in enumerate(t) if e.get("ev") == "op" and e["op"] == "rename")
+    wi = max(i for i, e in enumerate(t[:ri]) if e.get("ev") == "op" and e["op"] == "write" and e["cls"] == "tmp")
+    t[wi], t[ri] = t[ri], t[wi]
+    results.append(("rename before the last write", observe_reports(t, "C07", "AtomicFiles"), not accepted(t)))
+    # 2. an inserted ID duplicated in the projected post-state
+    t = copy.deepcopy(good)
+    end = t[-1]
+    refs = [s2 for f in end["files"] for s2 in f if s2["ref"] >= 0]
+    new = [s2 for s2 in refs if s2["uid"] in (11, 21, 22)]
+    new[1]["ref"] = new[0]["ref"]
+    results.append(("duplicate inserted ID", observe_reports(t, "C01", "UniqueInRange"), not accepted(t)))
+    # 3. exit status of a run with a failed rename flipped to 0
+    t = copy.deepcopy(failed)
+    t[-1]["exit"] = 0
+    results.append(("exit status flipped to 0 after a failed rename", observe_reports(t, "C08", "FailureMeansNonZero"), not accepted(t)))
+    # 4. lock value lowered in the projected post-state
+    t = copy.deepcopy(good)
+    t[-1]["lock"] = 1
+    results.append(("lock value lowered", observe_reports(t, "C02", "LockDominates"), not accepted(t)))
+    v.cov["binding_selftest"] = [{"corruption": c, "observe_reports_property": a, "runtrace_rejects": b} for c, a, b in results]
+    bad = [c for c, a, b in results if not (a and b)]
+    if bad:
+        raise common.ToolError("binding self-test: corrupted traces were accepted: %s" % bad)
+    log("[selftest] %d corrupted traces rejected by Observe and RunTrace" % len(results))
+
+
 def c07(tier):
     v = Verdict("C07", tier)
     model_step(v, tiered("intended/C07.cfg", tier), need=("RenameTmp", "Drain", "FlushTmp", "Kill", "DropTmp"))
     expect_counterexample(v, "asfound/C07noflush.cfg", ("AtomicFiles",))
     binary = common.build_breadlog()
+    binding_selftest(v, binary)
     batch = rl.Batch()
     kinds = ["kill_before", "kill_after", "EIO", "ENOSPC", "EACCES", "EXDEV"]
     scens = []
